@@ -167,6 +167,11 @@ impl SharedHistory {
     pub fn verif_delta_count(&self) -> usize {
         self.read().deltas.len()
     }
+
+    /// Replaces the current snapshot (used to give it a refresh deadline).
+    pub fn verif_replace_current(&self, snapshot: PayloadSnapshot) {
+        self.write().current = Some(snapshot.into());
+    }
 }
 
 
